@@ -1,1 +1,167 @@
-From SV Require Import Base.Qx Alg.GSM.
+(* C08 — GSM optimisers return feasible, cost-consistent, globally optimal service times.
+   Statements only; every proof is [exact <lemma of Alg/GSM_proofs.v or Alg/GSMTree_proofs.v>].
+   Model: Alg/GSM.v.
+     (a) gsm_helpers: [inbound_cst], [net_lead_time], [feasible] (every net lead time >= 0, S_k <= external outbound CST;
+         the external inbound CST is part of [inbound_cst]), [solution_cost] (None = math domain error).
+     (b) gsm_serial._cst_dp_serial: [serial_cst], [serial_cost]  (stages 1..N, N upstream, demand at 1).
+     (c) gsm_tree._cst_dp_tree on the relabelled tree: [tree_sol] (opt_cst, opt_in_cst per node; None = KeyError),
+         [tree_cost] (None = inf), max replenishment times by [replen_tab].
+   CSTs and times are naturals, the stage cost c k tau is an ARBITRARY table of rationals
+   (the implementation's h*z*sigma*sqrt(tau)); monotonicity of c is assumed only where stated. *)
+From SV Require Import Base.Qx Alg.GSM Alg.GSM_proofs Alg.GSMTree_proofs Alg.GSMSerialTree_proofs.
+
+(* ------------------------------------------------------------------------------------------- *)
+Section C08_serial.
+Variables (N : nat) (T : nat -> nat) (ein eout : nat) (c : nat -> nat -> Q).
+Hypothesis HN : (1 <= N)%nat.
+(* the serial system as a network for the helper functions *)
+Let preds := serial_preds N.
+Let einf := serial_ein N ein.
+Let eoutf := serial_eout eout.
+Let nodes := seq 1 N.
+(* the returned CST of stage j *)
+Let cst := fun j => nth (j - 1) (serial_cst N T ein eout c) 0%nat.
+
+(* (S1) the returned vector is feasible: every net lead time >= 0 and S_1 <= external outbound CST *)
+Theorem C08_serial_feasible : feasible preds T einf eoutf nodes cst = true.
+Proof. exact (serial_dp_feasible N T ein eout c HN). Qed.
+
+(* (S2) the reported cost is the safety-stock cost of exactly the returned vector *)
+Theorem C08_serial_cost_consistent :
+  exists v, solution_cost preds T einf c nodes cst = Some v /\ v == serial_cost N T ein eout c.
+Proof. exact (serial_dp_cost_consistent N T ein eout c HN). Qed.
+
+(* (S3) no feasible integer CST vector is cheaper.  The DP charges stage 1 with c_1((SI_1+T_1-eout)^+), so the
+   competitor set "S_1 <= eout" needs a non-decreasing c_1 (true for h*z*sigma*sqrt) ... *)
+Theorem C08_serial_optimal : (forall a b, (a <= b)%nat -> c 1%nat a <= c 1%nat b) ->
+  forall s, feasible preds T einf eoutf nodes s = true ->
+  exists v, solution_cost preds T einf c nodes s = Some v /\ serial_cost N T ein eout c <= v.
+Proof. exact (fun Hm s => serial_dp_optimal N T ein eout c HN s Hm). Qed.
+
+(* ... and with an arbitrary c_1 the DP is optimal among the vectors quoting S_1 = min(eout, SI_1 + T_1) *)
+Theorem C08_serial_optimal_fixed_S1 :
+  forall s, feasible preds T einf eoutf nodes s = true ->
+  s 1%nat = Nat.min eout (inbound_cst preds einf s 1%nat + T 1%nat) ->
+  exists v, solution_cost preds T einf c nodes s = Some v /\ serial_cost N T ein eout c <= v.
+Proof. exact (serial_dp_optimal_fixed_S1_inb N T ein eout c HN). Qed.
+End C08_serial.
+
+(* ------------------------------------------------------------------------------------------- *)
+Section C08_tree.
+(* a correctly labelled tree: nodes 0..n-1, par i = the unique larger-indexed neighbour of i (i < n-1),
+   dn i = true iff that neighbour is downstream of i *)
+Variables (n : nat) (par : nat -> nat) (dn : nat -> bool).
+Variables (T ein : nat -> nat) (eout : nat -> option nat) (c : nat -> nat -> Q).
+Hypothesis Hn : (1 <= n)%nat.
+Hypothesis Hpar : forall i, (i < n - 1)%nat -> (i < par i <= n - 1)%nat.
+Let preds := rpreds n par dn.
+Let nodes := seq 0 n.
+(* preprocess_tree: max replenishment times (longest paths) *)
+Let Ml := replen_tab preds T ein n (2 * n).
+Let M := nth_fun Ml 0%nat.
+Let MM := lmax 0%nat Ml.
+Let sol := tree_sol n par dn T ein eout M MM c.
+Let cost := tree_cost n par dn T ein eout M MM c.
+
+(* (T1) the backtracking never fails and the returned vector is feasible (true inbound times of gsm_helpers) —
+   for EVERY tree and every cost table, thanks to the first-minimiser tie-breaking *)
+Theorem C08_tree_feasible :
+  exists R, sol = Some R /\ length R = n /\
+            feasible preds T ein eout nodes (fun k => fst (nth k R (0%nat, 0%nat))) = true.
+Proof. exact (tree_dp_feasible n par dn T ein eout c Hn Hpar). Qed.
+
+(* (T2) the reported cost is finite and equals the safety-stock cost of exactly the returned vector
+   (stage costs non-decreasing in the net lead time) *)
+Theorem C08_tree_cost_consistent : (forall k a b, (k < n)%nat -> (a <= b)%nat -> c k a <= c k b) ->
+  exists R q v, sol = Some R /\ cost = Some q /\
+                solution_cost preds T ein c nodes (fun k => fst (nth k R (0%nat, 0%nat))) = Some v /\ v == q.
+Proof. exact (tree_dp_cost_consistent n par dn T ein eout c Hn Hpar). Qed.
+
+(* (T3) global optimality for EVERY tree: no feasible integer CST vector is cheaper (arbitrary cost table) *)
+Theorem C08_tree_optimal : forall s, feasible preds T ein eout nodes s = true ->
+  exists q v, cost = Some q /\ solution_cost preds T ein c nodes s = Some v /\ q <= v.
+Proof. exact (tree_dp_optimal n par dn T ein eout c Hn Hpar). Qed.
+
+(* (T4) every feasible vector lies in the box [0, max replenishment time] the DP (and the oracle) searches *)
+Theorem C08_feasible_box : forall s, feasible preds T ein eout nodes s = true ->
+  forall k, (k < n)%nat -> (s k <= M k)%nat.
+Proof. exact (feasible_within_replenishment_times n par dn T ein eout c Hn Hpar). Qed.
+End C08_tree.
+
+(* the list-level entry point evaluated by the harness is exactly the instance the theorems talk about *)
+Theorem C08_run_is_model parl dnl Tl einl eoutl ctab :
+  let n := length Tl in
+  let par := nth_fun parl 0%nat in let dn := nth_fun dnl false in
+  let T := nth_fun Tl 0%nat in let ein := nth_fun einl 0%nat in let eout := nth_fun eoutl None in
+  let Ml := replen_tab (rpreds n par dn) T ein n (2 * n) in
+  gsm_tree_run parl dnl Tl einl eoutl ctab =
+  (tree_sol n par dn T ein eout (nth_fun Ml 0%nat) (lmax 0%nat Ml) (ctab_fun ctab),
+   tree_cost n par dn T ein eout (nth_fun Ml 0%nat) (lmax 0%nat Ml) (ctab_fun ctab), Ml).
+Proof. exact (gsm_tree_run_eq parl dnl Tl einl eoutl ctab). Qed.
+
+(* ------------------------------------------------------------------------------------------- *)
+(* (ST) on a serial system (stages 1..N = tree nodes 0..N-1 with par k = k+1, every larger neighbour upstream) the serial
+   (Inderfurth) and the tree (Graves-Willems) DP report the same optimal cost (non-decreasing stage costs) *)
+Theorem C08_serial_equals_tree (N : nat) (T : nat -> nat) (ein eout : nat) (c : nat -> nat -> Q) :
+  (1 <= N)%nat -> (forall k a b, (a <= b)%nat -> c k a <= c k b) ->
+  let par := fun k => S k in let dn := fun _ : nat => false in
+  let T' := fun k => T (S k) in let ein' := fun k => if Nat.eqb k (N - 1) then ein else 0%nat in
+  let eout' := fun k => if Nat.eqb k 0 then Some eout else None in let c' := fun k => c (S k) in
+  let Ml := replen_tab (rpreds N par dn) T' ein' N (2 * N) in
+  exists q, tree_cost N par dn T' ein' eout' (nth_fun Ml 0%nat) (lmax 0%nat Ml) c' = Some q /\
+            q == serial_cost N T ein eout c.
+Proof. exact (serial_equals_tree N T ein eout c). Qed.
+
+(* ------------------------------------------------------------------------------------------- *)
+(* Not proved (statement only; checked per generated instance by the harness: the model's labelling equals the
+   implementation's, and an independent oracle checks that every relabelled node but the last has exactly one
+   larger neighbour in the recorded direction):
+   relabel_nodes produces a correct labelling for every graph that admits one (i.e. for every tree).
+   Missing: the counting argument that the greedy leaf elimination never gets stuck and leaves exactly one unlabelled
+   neighbour at each step.  "Results do not depend on node numbering" is likewise search-only at the level of the whole
+   pipeline; for two correct labellings of the same network it follows from C08_tree_optimal/C08_tree_cost_consistent
+   (both costs are the minimum over the same set of feasible vectors). *)
+Definition relabel_correct_statement : Prop :=
+  forall (ids : list nat) (edges : list (nat * nat)),
+    NoDup ids -> (forall e, In e edges -> In (fst e) ids /\ In (snd e) ids) ->
+    (exists f : nat -> nat, (forall i j, In i ids -> In j ids -> f i = f j -> i = j) /\
+        is_correctly_labeled (map f ids) (map (fun e => (f (fst e), f (snd e))) edges) = true) ->
+    let nl := new_labels ids edges true in
+    let g := fun i => match adj_get nl i with Some x => x | None => 0%nat end in
+    is_correctly_labeled (map g ids) (map (fun e => (g (fst e), g (snd e))) edges) = true.
+
+(* non-vacuity: a 4-node tree (0 -> 2, 2 -> 1, 2 -> 3; demand at 1 and 3; external CSTs) satisfies the hypotheses,
+   the DP returns cost 6.732 with CSTs (0,0,0,1), and the all-zero vector is feasible but strictly more expensive;
+   a 3-stage serial line *)
+Definition ex_ctab : list (list Q) :=
+  [[0; 1; 14142 # 10000; 17320 # 10000; 2]; [0; 3; 42426 # 10000; 51961 # 10000; 6; 67082 # 10000];
+   [0; 2; 28284 # 10000; 34641 # 10000; 4; 44721 # 10000]; [0; 4; 56568 # 10000; 69282 # 10000; 8; 89442 # 10000]].
+Example C08_nonvacuous_tree :
+  let parl := [2; 2; 3; 0]%nat in let dnl := [true; false; true; false] in
+  let Tl := [2; 1; 1; 1]%nat in let einl := [1; 0; 0; 0]%nat in let eoutl := [None; Some 0%nat; None; Some 1%nat] in
+  let r := gsm_tree_run parl dnl Tl einl eoutl ex_ctab in
+  (forall i, (i < 4 - 1)%nat -> (i < nth_fun parl 0%nat i <= 4 - 1)%nat) /\
+  fst (fst r) = Some [(0, 1); (0, 0); (0, 0); (1, 0)]%nat /\ snd r = [3; 5; 4; 5]%nat /\
+  option_map qobs (snd (fst r)) = Some (1683%Z, 250%Z) /\
+  let pr := rpreds 4 (nth_fun parl 0%nat) (nth_fun dnl false) in
+  feasible pr (nth_fun Tl 0%nat) (nth_fun einl 0%nat) (nth_fun eoutl None) (seq 0 4) (fun _ => 0%nat) = true /\
+  option_map qobs (solution_cost pr (nth_fun Tl 0%nat) (nth_fun einl 0%nat) (ctab_fun ex_ctab) (seq 0 4) (fun _ => 0%nat)) = Some (2683%Z, 250%Z).
+Proof.
+  cbv zeta. split; [intros i Hi; destruct i as [|[|[|i]]]; cbn; lia|]. vm_compute. repeat split; reflexivity.
+Qed.
+
+Example C08_nonvacuous_serial :
+  let r := gsm_serial_run [1; 2; 1]%nat 1 1 [[0; 7; 10; 12; 13; 14]; [0; 4; 6; 7; 8; 9]; [0; 2; 3; 4]] in
+  fst r = [1; 0; 2]%nat /\ qobs (snd r) = (8%Z, 1%Z).
+Proof. vm_compute. split; reflexivity. Qed.
+
+Print Assumptions C08_serial_feasible.
+Print Assumptions C08_serial_cost_consistent.
+Print Assumptions C08_serial_optimal.
+Print Assumptions C08_serial_optimal_fixed_S1.
+Print Assumptions C08_tree_feasible.
+Print Assumptions C08_tree_cost_consistent.
+Print Assumptions C08_tree_optimal.
+Print Assumptions C08_feasible_box.
+Print Assumptions C08_run_is_model.
+Print Assumptions C08_serial_equals_tree.
